@@ -1660,16 +1660,8 @@ impl Node {
         peer_id: &[u8; 33], // TODO figure out a more specific type
         arc_self: &Arc<Node>,
     ) -> Result<(ChannelId, Option<ChannelSlot>), Status> {
-        if self.get_state().dbid_high_water_mark >= dbid {
-            return Err(policy_error(
-                "policy-channel-original-channel-id-reuse",
-                format!("original channel id {} is potentially being reused", dbid),
-            )
-            .into());
-        }
-
         let channel_id = ChannelId::new_from_peer_id_and_oid(peer_id, dbid);
-        self.find_or_create_channel(channel_id, arc_self)
+        self.find_or_create_channel_above_mark(channel_id, arc_self, Some(dbid))
     }
 
     /// Create a new channel with a specified channel id.
@@ -1688,9 +1680,30 @@ impl Node {
         channel_id: ChannelId,
         arc_self: &Arc<Node>,
     ) -> Result<(ChannelId, Option<ChannelSlot>), Status> {
+        self.find_or_create_channel_above_mark(channel_id, arc_self, None)
+    }
+
+    fn find_or_create_channel_above_mark(
+        &self,
+        channel_id: ChannelId,
+        arc_self: &Arc<Node>,
+        dbid: Option<u64>,
+    ) -> Result<(ChannelId, Option<ChannelSlot>), Status> {
         // lock order: tracker before the channel map (as setup_channel and get_heartbeat do)
         let blockheight = arc_self.get_tracker().height();
         let mut channels = self.get_channels();
+        // forget_channel raises the high-water mark and removes the stub while it holds the
+        // channel map, so the mark has to be read under the same lock: otherwise a forget that
+        // runs between the check and the lookup lets the forgotten id come back to life
+        if let Some(dbid) = dbid {
+            if self.get_state().dbid_high_water_mark >= dbid {
+                return Err(policy_error(
+                    "policy-channel-original-channel-id-reuse",
+                    format!("original channel id {} is potentially being reused", dbid),
+                )
+                .into());
+            }
+        }
         let policy = self.policy();
         if channels.len() >= policy.max_channels() {
             // FIXME(3) we don't garbage collect channels
